@@ -59,11 +59,11 @@ Definition reach_of (a : analysis) (j : nat) : list nat := map fst (nth j (a_rea
 Lemma analyse_inv g a : analyse g = Some a ->
   a_order a = reachable_files g /\ a_entries a = entries g /\
   a_chunks a = sort_chunks (pre_chunks a) /\
-  (exists lv, closure (S (nfiles g)) (live_succ g) (fun _ => true) (entries g) = Some lv /\ a_live a = map fst lv) /\
+  (exists lv, closure (S (nfiles g)) (live_succ g (entries g)) (fun _ => true) (entries g) = Some lv /\ a_live a = map fst lv) /\
   all_some (map (fun e => closure (S (nfiles g)) (split_succ g (entries g)) (fun t => memn t (a_live a)) [e]) (entries g)) = Some (a_reach a).
 Proof.
   unfold analyse. intro H.
-  destruct (closure (S (nfiles g)) (live_succ g) (fun _ => true) (entries g)) as [lv|] eqn:CL; [|discriminate].
+  destruct (closure (S (nfiles g)) (live_succ g (entries g)) (fun _ => true) (entries g)) as [lv|] eqn:CL; [|discriminate].
   destruct (all_some _) as [rs|] eqn:AS; [|discriminate].
   inversion H; subst; clear H. simpl.
   repeat split; try reflexivity.
@@ -394,12 +394,32 @@ Qed.
 (* ------------------------------------------------------------------ *)
 (* cross-chunk imports *)
 
-(* assumption on the input (established by scanImportsAndExports in the Go code):
-   a symbol used from, or exported from, another file is backed by a part
-   dependency on the declaring file *)
+(* dependencies cover uses: a declared symbol used from, or exported by an entry point from,
+   another file is backed by a dependency on the declaring file.  This used to be an
+   assumption on the input; it now holds by construction (Split.part_deps / export_deps
+   complete the dumped dependencies the way scanImportsAndExports builds them). *)
 Definition deps_cover (g : graph) : Prop :=
-  (forall f s, In s (f_uses (getf g f)) -> fst s <> f -> In (fst s) (f_deps (getf g f))) /\
-  (forall e s, In s (entry_exports g e) -> fst s <> e -> In (fst s) (f_deps (getf g e))).
+  (forall f s, In s (f_uses (getf g f)) -> is_declared g s = true -> In (fst s) (f_deps g (getf g f))) /\
+  (forall ents e s, In e ents -> In s (entry_exports g e) -> is_declared g s = true -> In (fst s) (export_deps g ents e)).
+
+Lemma deps_cover_holds g : deps_cover g.
+Proof.
+  split.
+  - intros f s Hs Hd. unfold f_uses in Hs. apply in_map_iff in Hs as [u [E Hu]].
+    apply in_flat_map in Hu as [p [Hp Hu]]. apply filter_In in Hp as [Hp _].
+    unfold f_deps. apply in_flat_map. exists p. split; [exact Hp|].
+    unfold part_deps. apply in_or_app. right. unfold sym_deps. apply in_map_iff. exists s. split; [reflexivity|].
+    apply filter_In. split; [|exact Hd]. apply in_map_iff. exists u. auto.
+  - intros ents e s He Hs Hd. unfold export_deps.
+    replace (memn e ents) with true by (symmetry; apply memn_In; exact He).
+    apply in_map_iff. exists s. split; [reflexivity|]. apply filter_In. auto.
+Qed.
+
+Lemma declared_live_any fl i : In i (declared_live fl) -> In i (declared_any fl).
+Proof.
+  unfold declared_live, declared_any, live_parts. intro H. apply in_flat_map in H as [p [Hp Hi]].
+  apply filter_In in Hp as [Hp _]. apply in_flat_map. exists p. auto.
+Qed.
 
 Lemma find_chunk_spec bs : forall l i0 k, find_chunk bs l i0 = Some k ->
   (i0 <= k)%nat /\ (k - i0 < length l)%nat /\ bs = c_bits (nth (k - i0) l dchunk).
@@ -409,6 +429,13 @@ Proof.
   - inversion H; subst. rewrite Nat.sub_diag. simpl. apply Equals_eq in E. repeat split; [lia | lia | exact E].
   - apply IH in H as [H1 [H2 H3]]. replace (k - i0)%nat with (S (k - S i0)) by lia. simpl.
     repeat split; [lia | lia | exact H3].
+Qed.
+
+Lemma chunk_of_sym_declared g a s oi : chunk_of_sym g a s = Some oi -> is_declared g s = true.
+Proof.
+  unfold chunk_of_sym, is_declared. intro H.
+  destruct (memn (snd s) (declared_live (getf g (fst s)))) eqn:E; [|discriminate].
+  apply memn_In. apply declared_live_any. apply memn_In. exact E.
 Qed.
 
 Lemma chunk_of_sym_spec g a s oi : chunk_of_sym g a s = Some oi ->
@@ -457,7 +484,7 @@ Proof.
   rewrite HB. destruct items; left; reflexivity.
 Qed.
 
-Lemma split_succ_dep g ents f t : In t (f_deps (getf g f)) -> t <> f -> In t (split_succ g ents f).
+Lemma split_succ_dep g ents f t : In t (f_deps g (getf g f) ++ export_deps g ents f) -> t <> f -> In t (split_succ g ents f).
 Proof.
   intros H Hne. unfold split_succ. apply in_or_app. right. apply filter_In. split; [exact H|].
   apply negb_true_iff. apply Nat.eqb_neq. exact Hne.
@@ -465,7 +492,7 @@ Qed.
 
 (* a file that has bit j passes it on to the declaring file of anything it depends on *)
 Lemma dep_bits g a f t j : analyse g = Some a -> (j < length (a_entries a))%nat ->
-  In t (f_deps (getf g f)) -> is_live a t = true ->
+  In t (f_deps g (getf g f) ++ export_deps g (a_entries a) f) -> is_live a t = true ->
   HasBit (file_bits a f) j = true -> HasBit (file_bits a t) j = true.
 Proof.
   intros H Hj Hd Hl Hb.
@@ -504,12 +531,13 @@ Proof.
   apply raw_imports_spec in Hin as [Hoi [Hne Hcase]].
   split.
   - intros j Hj Hb. destruct Hcase as [[s [_ [Hu Hs]]]|[bit [e [HE HB]]]].
-    + apply chunk_of_sym_spec in Hs as [Hl [_ Hbits]]. rewrite <- Hbits.
+    + pose proof (chunk_of_sym_declared _ _ _ _ Hs) as Hdecl.
+      apply chunk_of_sym_spec in Hs as [Hl [_ Hbits]]. rewrite <- Hbits.
       unfold chunk_uses in Hu. apply (proj1 (dedupe_syms_In _ _)) in Hu. apply in_app_or in Hu as [Hu|Hu].
       * apply in_flat_map in Hu as [f [Hf Hu]].
         apply (chunk_files _ _ _ f H Hc) in Hf as [_ [_ Hfb]].
         destruct (Nat.eq_dec (fst s) f) as [->|Hsf]; [rewrite Hfb; exact Hb|].
-        eapply dep_bits; eauto. rewrite Hfb. exact Hb.
+        eapply (dep_bits g a f); eauto; [apply in_or_app; left; apply DU; assumption | rewrite Hfb; exact Hb].
       * destruct (c_entry c) as [[bit e]|] eqn:HE; [|destruct Hu].
         destruct (chunk_entry_shape _ _ _ _ _ H Hc HE) as [Hbit [He Hcb]].
         rewrite Hcb in Hb. apply singleton_bit in Hb; [|exact Hbit]. subst j.
@@ -517,7 +545,8 @@ Proof.
         { rewrite (file_bits_spec g) by assumption. apply memn_In.
           destruct (reach_closed _ _ bit H Hbit) as [_ R]. rewrite He. apply R. apply (entry_is_live g); assumption. }
         destruct (Nat.eq_dec (fst s) e) as [->|Hse]; [exact Heb|].
-        eapply dep_bits; eauto.
+        eapply (dep_bits g a e); eauto. apply in_or_app. right. apply DE; try assumption.
+        rewrite He. apply nth_In. exact Hbit.
     + destruct (chunk_entry_shape _ _ _ _ _ H Hc HE) as [Hbit [He Hcb]].
       rewrite Hcb in Hb. apply singleton_bit in Hb; [|exact Hbit]. subst j. exact HB.
   - intro E. apply Hne.
@@ -828,23 +857,23 @@ Theorem chunks_partition_all g r : split g = Some r ->
   (forall c f, In c (a_chunks a) -> In f (c_files c) -> In f (a_order a) /\ is_live a f = true).
 Proof. intro H. apply split_inv in H as [A _]. apply (chunks_partition_lemma g). exact A. Qed.
 
-Theorem import_edge_superset_all g r i j : split g = Some r -> deps_cover g ->
+Theorem import_edge_superset_all g r i j : split g = Some r ->
   let a := r_analysis r in
   sedge (r_cross r) i j ->
   (i < length (a_chunks a))%nat /\ (j < length (a_chunks a))%nat /\
   (forall b, (b < length (a_entries a))%nat ->
      HasBit (c_bits (nth i (a_chunks a) dchunk)) b = true -> HasBit (c_bits (nth j (a_chunks a) dchunk)) b = true) /\
   c_bits (nth i (a_chunks a) dchunk) <> c_bits (nth j (a_chunks a) dchunk).
-Proof. intros H HD. apply split_inv in H as [A X]. apply (sedge_spec g); assumption. Qed.
+Proof. intros H. pose proof (deps_cover_holds g) as HD. apply split_inv in H as [A X]. apply (sedge_spec g); assumption. Qed.
 
-Theorem static_chunk_graph_acyclic_all g r : split g = Some r -> deps_cover g ->
+Theorem static_chunk_graph_acyclic_all g r : split g = Some r ->
   forall i, ~ clos_trans nat (sedge (r_cross r)) i i.
-Proof. intros H HD. apply split_inv in H as [A X]. apply (static_acyclic_lemma g (r_analysis r)); assumption. Qed.
+Proof. intros H. pose proof (deps_cover_holds g) as HD. apply split_inv in H as [A X]. apply (static_acyclic_lemma g (r_analysis r)); assumption. Qed.
 
-Theorem enforce_never_fires_all g r : split g = Some r -> deps_cover g ->
+Theorem enforce_never_fires_all g r : split g = Some r ->
   enforce_cycle_error (r_cross r) = false.
 Proof.
-  intros H HD. pose proof (static_chunk_graph_acyclic_all _ _ H HD) as AC.
+  intros H. pose proof (deps_cover_holds g) as HD. pose proof (static_chunk_graph_acyclic_all _ _ H) as AC.
   apply split_inv in H as [A X]. apply enforce_ok; [exact AC|].
   intros i j E. destruct (sedge_spec _ _ _ _ _ A X HD E) as [_ [Hj _]].
   rewrite (cross_chunk_length _ _ _ X). exact Hj.
@@ -899,29 +928,14 @@ Proof.
     symmetry. apply Nat.eqb_neq. auto.
 Qed.
 
-Theorem entry_chunk_no_importers_partial_all g r i j bit e : split g = Some r -> deps_cover g ->
+Theorem entry_chunk_no_importers_partial_all g r i j bit e : split g = Some r ->
   let a := r_analysis r in
   sedge (r_cross r) i j -> c_entry (nth j (a_chunks a) dchunk) = Some (bit, e) ->
   (exists b, (b < length (a_entries a))%nat /\ HasBit (c_bits (nth i (a_chunks a) dchunk)) b = true) -> False.
-Proof. intros H HD. apply split_inv in H as [A X]. simpl. apply (entry_no_importers_lemma g); assumption. Qed.
+Proof. intros H. pose proof (deps_cover_holds g) as HD. apply split_inv in H as [A X]. simpl. apply (entry_no_importers_lemma g); assumption. Qed.
 
 Lemma getf_out g f : (nfiles g <= f)%nat -> getf g f = nofile.
 Proof. intro H. unfold getf. apply nth_overflow. exact H. Qed.
-
-Lemma deps_coverb_sound g : deps_coverb g = true -> deps_cover g.
-Proof.
-  unfold deps_coverb. intro H. rewrite forallb_forall in H.
-  assert (K : forall f, (f < nfiles g)%nat ->
-     (forall s, In s (f_uses (getf g f)) -> fst s <> f -> In (fst s) (f_deps (getf g f))) /\
-     (forall s, In s (entry_exports g f) -> fst s <> f -> In (fst s) (f_deps (getf g f)))).
-  { intros f Hf. specialize (H f (proj2 (in_seq _ _ _) (conj (Nat.le_0_l f) Hf))).
-    apply andb_true_iff in H as [H1 H2]. rewrite forallb_forall in H1, H2.
-    split; intros s Hs Hne; [specialize (H1 s Hs) | specialize (H2 s Hs)].
-    - apply orb_true_iff in H1 as [H1|H1]; [apply Nat.eqb_eq in H1; contradiction | apply memn_In; exact H1].
-    - apply orb_true_iff in H2 as [H2|H2]; [apply Nat.eqb_eq in H2; contradiction | apply memn_In; exact H2]. }
-  split; intros f s Hs Hne; (destruct (Nat.ltb_spec f (nfiles g)) as [Hf|Hf];
-    [destruct (K f Hf) as [K1 K2]; auto | unfold entry_exports in Hs; rewrite getf_out in Hs by exact Hf; destruct Hs]).
-Qed.
 
 (* chunk keys: two bit sets for the same number of entry points are the same
    string exactly when they have the same members *)
